@@ -13,7 +13,7 @@ EXTENDS Integers, Sequences, FiniteSets, TLC, Json
 CONSTANTS MaxLen, Alphabet, Emit
 
 Core == {"DOLLAR", "VAR", "IDENT", "INT", "NEGINT", "SPACE", "NL", "SEMI", "COMMA", "ASSIGN", "ARROW", "GT", "PLUS", "STAR", "DOT",
-         "LPAREN", "RPAREN", "LBRACK", "RBRACK", "LBRACE", "RBRACE", "DQUOTE", "SQUOTE", "INTERP", "HEREDOC", "HEREDOC_END",
+         "LPAREN", "RPAREN", "LBRACK", "RBRACK", "LBRACE", "RBRACE", "DQUOTE", "SQUOTE", "INTERP", "HEREDOC", "NOWDOC", "HEREDOC_END", "HEREDOC_END0",
          "BLOCK_OPEN", "BLOCK_CLOSE", "LINE_COMMENT", "OPEN_TAG", "CLOSE_TAG", "FN", "FUNCTION", "IF", "SWITCH", "CASE", "E380", "E38080", "BACKSLASH"}
 Extra == {"CRLF", "HASH", "NUL", "UTF8", "CLASS", "NEW", "ECHO", "RETURN", "OBJ_ARROW", "SCOPE", "QUESTION", "COLON",
           "AMP", "AT", "FOR", "WHILE", "FOREACH", "TRY", "CATCH", "MATCH", "STRING", "FLOAT", "TRUE", "NULLSAFE", "SPREAD", "BANG"}
@@ -27,13 +27,14 @@ VARIABLES frags, mode, depth, done
 vars == <<frags, mode, depth, done>>
 
 NextMode(m, f) ==
-  CASE m = "code" -> (CASE f = "DQUOTE" -> "dquote" [] f = "SQUOTE" -> "squote" [] f = "HEREDOC" -> "heredoc"
+  CASE m = "code" -> (CASE f = "DQUOTE" -> "dquote" [] f = "SQUOTE" -> "squote" [] f \in {"HEREDOC", "NOWDOC"} -> "heredoc"
                         [] f = "BLOCK_OPEN" -> "block-comment" [] f \in {"LINE_COMMENT", "HASH"} -> "line-comment"
                         [] f = "CLOSE_TAG" -> "html" [] OTHER -> "code")
     [] m = "dquote" -> (CASE f = "DQUOTE" -> "code" [] f = "INTERP" -> "interp" [] OTHER -> "dquote")
     [] m = "squote" -> (IF f = "SQUOTE" THEN "code" ELSE "squote")
     [] m = "interp" -> (IF f = "RBRACE" THEN "dquote" ELSE "interp")
-    [] m = "heredoc" -> (IF f = "HEREDOC_END" THEN "code" ELSE "heredoc")
+    \* HEREDOC_END0 is the closing marker WITHOUT a line break before it: directly after the opening line the body is empty
+    [] m = "heredoc" -> (IF f \in {"HEREDOC_END", "HEREDOC_END0"} THEN "code" ELSE "heredoc")
     [] m = "line-comment" -> (CASE f \in {"NL", "CRLF"} -> "code" [] f = "CLOSE_TAG" -> "html" [] OTHER -> "line-comment")
     [] m = "block-comment" -> (IF f = "BLOCK_CLOSE" THEN "code" ELSE "block-comment")
     [] m = "html" -> (IF f = "OPEN_TAG" THEN "code" ELSE "html")
